@@ -25,6 +25,7 @@ RULE = ('(a) Hypothesis draws byte strings: reference encodings of values from U
         'position with a seekable model (the model follows the wrapper\'s documented renumbering when the cache is trimmed). '
         'Non-trivial = input longer than the buffer or invalid (a); histories with a backward seek after a mark (b); distinct = '
         'distinct (input, kind) / distinct histories.')
+RULE += (' ' + 'Also: a non-blocking pipe kind (bursts at element boundaries, idle polls), a pipe with 3-octet reads, end-of-octets markers at k*8192-2..+1, and the wrapper machine over a non-blocking raw source against a seekable stream fed alike.')
 ASSUMPTIONS = ['the outcome for bytes / io.BytesIO input is the reference (differential oracle within the library)']
 SHARDS = {'quick': (12, 36, 4, 80), 'thorough': (12, 1200, 4, 2500)}
 BUDGET = {'quick': 100, 'thorough': 1500}
